@@ -238,7 +238,7 @@ Lemma hf_file_stack c p k size ff st :
   (forall st', hf_file c p k size ff st <> WOk st' SkipDir).
 Proof.
   unfold hf_file.
-  destruct (negb match k with Reg => true | Sym => c_symlinks c | Special => false end);
+  destruct (negb match k with Reg => true | Sym => c_symlinks c | Special _ => false end);
     [split; [reflexivity|discriminate]|].
   destruct (c_gitignore c && gi_match_stack c (s_stack st) p false); [split; [reflexivity|discriminate]|].
   apply run_exts_stack.
